@@ -36,6 +36,18 @@ def rdotted(call, env):
     return d
 
 
+def truth_of(p, name):
+    """(truth, argument key) of the test `name(arg)` on symexec path p (not(...) wrappers resolved), or None"""
+    for c, t, _ in p.conds:
+        neg = False
+        x = c
+        while x.startswith("not(") and x.endswith(")"):
+            x, neg = x[4:-1], not neg
+        if x.startswith(f"truthy({name}(") and x.endswith("))"):
+            return (t != neg), x[len(f"truthy({name}("):-2]
+    return None
+
+
 def is_super_call(call, name=None):
     f = call.func
     return isinstance(f, ast.Attribute) and isinstance(f.value, ast.Call) and isinstance(f.value.func, ast.Name) \
